@@ -1,5 +1,11 @@
 package main
 
+import (
+	"strings"
+
+	"golang.org/x/tools/go/ssa"
+)
+
 func init() {
 	register("C02", checkC02)
 	register("C08", checkC08)
@@ -38,6 +44,8 @@ func checkC02(c *Check) {
 	c.RuleDoc["R02.18"] = "the first-use initialisation is followed by the state transition on every path (= R17.10): otherwise the header is written twice and the frame no longer decodes"
 	ruleConcurrencyAtLeastOne(c, p, "R02.21")
 	c.RuleDoc["R02.21"] = "= R08.14: the stored concurrency is at least 1 (0 selects the concurrent path with a nil queue: the first block blocks forever)"
+	ruleBlockChecksumOnEveryPath(c, p, "R02.22")
+	c.RuleDoc["R02.22"] = "every path through Compress decides (and where declared stores) the block checksum after the stored bytes are selected (the block object is reused)"
 	ruleNoAppendOntoBlockBytes(c, p, "R02.20")
 	c.RuleDoc["R02.20"] = "nothing is appended to a slice of block bytes (borrowed from the caller or from the pool)"
 	ruleCloseWAlwaysCloses(c, p, "R02.19")
@@ -117,7 +125,7 @@ func checkC09(c *Check) {
 	ruleContentSizeWriters(c, p, "R09.12")
 	c.RuleDoc["R09.18"] = "the running length of the content hash is 64 bits wide and used unconverted (= R13.1/R13.2): the content checksum of a frame of 4 GiB or more is the XXH32 of its content"
 	c.as("R09.18", func() { ruleXXHLength(c, p) })
-	ruleSizeOptionArms(c, p, "R09.15")
+	ruleSizeOptionArms(c, p, "R09.15", "Writer")
 	c.RuleDoc["R09.15"] = "SizeOption sets flag and size unconditionally for every object kind (the header announces the configured size, 0 = none)"
 	rulePendingConsumedOnce(c, p, "R09.16")
 	c.RuleDoc["R09.16"] = "= R02.13 (pending bytes emitted once, in call order)"
@@ -125,6 +133,17 @@ func checkC09(c *Check) {
 	c.RuleDoc["R09.17"] = "the Writer's block buffer is sized from the block-size code of the frame being started (legacy: 8 MiB of content per block)"
 	ruleCloseWAlwaysCloses(c, p, "R09.21")
 	c.RuleDoc["R09.21"] = "= R08.15: Close waits for the pipeline on every path (a legacy frame closed early is cut short)"
+	var wfns []*ssa.Function
+	for _, fn := range moduleFuncs(p, pkgRoot, pkgStream) {
+		s := shortFn(fn)
+		if strings.HasPrefix(s, "Writer.") || strings.HasPrefix(s, "Frame.InitW") || strings.HasPrefix(s, "Frame.CloseW") || strings.HasPrefix(s, "FrameDescriptor.Write") || strings.HasPrefix(s, "FrameDataBlock.Write") || strings.HasPrefix(s, "Blocks.initW") {
+			wfns = append(wfns, fn)
+		}
+	}
+	ruleErrorsNotAbsorbed(c, p, "R09.22", wfns, errAbsorbExempt)
+	c.RuleDoc["R09.22"] = "= R15.E on the writing side: once a write to the sink has failed, every path returns a non-nil error (a frame with a hole is never reported as written)"
+	ruleBlockChecksumOnEveryPath(c, p, "R09.23")
+	c.RuleDoc["R09.23"] = "= R02.22: every path through Compress decides (and where declared stores) the block checksum after the stored bytes are selected"
 	ruleDirectWrite(c, p, "R09.19")
 	c.RuleDoc["R09.19"] = "= R02.7: a caller's block is compressed in place only when nothing is pending (otherwise the frame is well formed but carries the content in another order)"
 	ruleInitTransition(c, p, "R09.20")
